@@ -364,6 +364,13 @@ Theorem C01_view_cells : forall (f : R -> R -> R) (st : list R) a m j, a < lengt
   (fst (c01_cell_neg_literal K st a) = c01_opp K (c01_at K st a) /\
    snd (c01_cell_neg_literal K st a) = c01_upd st a (c01_opp K (c01_at K st a)) /\ fst (c01_cell_neg K st a) = c01_opp K (c01_at K st a)).
 Proof. exact (fun f st a m j Ha Hj => conj (P_cells_fixed K Rth st a m) (conj (P_cells_frame K f st a m j Ha Hj) (P_cells_neg_literal K st a Ha))). Qed.
+
+(* a scalar argument that is an entry of the receiver (x *= x[i0], x.axpy(x[i0], y), A *= A[i][j], usmv(y[i0], x, y) ...; after fix C01-8 the
+   scalar is copied before the loop): every component is combined with the OLD value of that entry *)
+Theorem C01_scalar_from_receiver : forall (g : nat -> R -> R -> R) (x : list R) i0,
+  length (c01_vec_elem K g x i0) = length x /\
+  forall i, i < length x -> c01_at K (c01_vec_elem K g x i0) i = g i (c01_at K x i) (c01_at K x i0).
+Proof. exact (P_vec_elem K). Qed.
 End C01.
 Print Assumptions C01_kernels_dense.
 Print Assumptions C01_kernels_diag.
@@ -402,6 +409,7 @@ Print Assumptions C01_operations_promote.
 Print Assumptions C01_view_products_alias_free.
 Print Assumptions C01_view_products_alias_refuted.
 Print Assumptions C01_view_cells.
+Print Assumptions C01_scalar_from_receiver.
 
 (* the hypotheses are satisfiable: the carriers used by the correspondence check satisfy the laws *)
 Theorem C01_instance_Z : ring_theory (c01_O c01_Z_ops) (c01_I c01_Z_ops) (c01_add c01_Z_ops) (c01_mul c01_Z_ops) (c01_sub c01_Z_ops) (c01_opp c01_Z_ops) (@eq Z).
@@ -500,3 +508,10 @@ Example C01_example_view_cells :
   c01_cell_leftmultiply_literal c01_Z_ops false [3] 0 0 = [0] /\ c01_cell_leftmultiply c01_Z_ops [3] 0 0 = [9] /\
   snd (c01_cell_neg_literal c01_Z_ops [3] 0) = [-3].
 Proof. exact P_cells_refuted. Qed.
+
+(* the loops as written before fix C01-8 re-read the scalar through the reference (finding F-C01-8): x *= x[0] on (2,3,4) *)
+Theorem C01_scalar_from_receiver_literal_refuted :
+  c01_vec_elem_literal c01_Z_ops (fun _ a k => a * k) [2; 3; 4] 0 = [4; 12; 16] /\
+  c01_vec_elem c01_Z_ops (fun _ a k => a * k) [2; 3; 4] 0 = [4; 6; 8].
+Proof. exact P_vec_elem_literal_refuted. Qed.
+Print Assumptions C01_scalar_from_receiver_literal_refuted.
